@@ -52,6 +52,8 @@ class Gen:
         self.stats: Dict[str, int] = {}
         self.shared_uses = 0
         self.has_abstract = False
+        self.tsize: Dict[int, Any] = {}                   # id(template) -> (template, size of its expansion as a tree)
+        self.max_reuse_size = 25
         self.Q = _q()
 
     # -- small pieces -----------------------------------------------------------------------------
@@ -180,7 +182,29 @@ class Gen:
     def key(channels, atomic, dur):
         return (tuple(sorted(channels)), bool(atomic), repr(dur) if atomic else None)
 
+    def kids(self, pt) -> list:
+        name = type(pt).__name__
+        if name in ('SequencePulseTemplate', 'AtomicMultiChannelPulseTemplate'):
+            return list(pt.subtemplates)
+        if name in ('RepetitionPulseTemplate', 'ForLoopPulseTemplate'):
+            return [pt.body]
+        if name in ('MappingPulseTemplate', 'ParallelChannelPulseTemplate'):
+            return [pt.template]
+        if name == 'TimeReversalPulseTemplate':
+            return [pt._inner]
+        if name in ('ArithmeticPulseTemplate', 'ArithmeticAtomicPulseTemplate'):
+            return [c for c in (pt.lhs, pt.rhs) if hasattr(c, 'identifier')]
+        return []
+
+    def size(self, pt) -> int:
+        """number of nodes of the template expanded as a tree (shared objects counted at every use)"""
+        k = id(pt)
+        if k not in self.tsize or self.tsize[k][0] is not pt:
+            self.tsize[k] = (pt, 1 + sum(self.size(c) for c in self.kids(pt)))     # (keeps pt alive: ids stay unique)
+        return self.tsize[k][1]
+
     def remember(self, pt, channels, atomic, dur):
+        self.size(pt)
         if pt.identifier is not None:
             self.pool.append((self.key(channels, True, dur) if atomic else self.key(channels, False, None), pt))
             self.count('named')
@@ -194,6 +218,7 @@ class Gen:
         else:
             cs = tuple(sorted(channels))
             want = [p for k, p in self.pool if k[0] == cs]
+        want = [p for p in want if self.size(p) <= self.max_reuse_size]
         if not want:
             return None
         self.shared_uses += 1
@@ -399,8 +424,8 @@ def assignments(rng: random.Random, names, n: int, violate: bool = False) -> Lis
                 a[p] = rng.randrange(0, 4)
             else:
                 a[p] = rng.choice([rng.uniform(-2, 2), rng.randrange(-3, 4), 0.1 + 0.2, 1 / 3])
-        if violate and a:
-            p = rng.choice(sorted(a))
-            a[p] = 5000 if not p.startswith('n') else 5000
+        cand = sorted(p for p in a if not p.startswith('n'))      # (a huge loop count is no constraint test)
+        if violate and cand:
+            a[rng.choice(cand)] = 5000
         out.append(a)
     return out
